@@ -150,8 +150,8 @@ namespace generated
 
 
 HPP_HEADER_TEMPLATE = """\
-#ifndef _PROPHY_GENERATED_FULL_{base_name}_HPP
-#define _PROPHY_GENERATED_FULL_{base_name}_HPP
+#ifndef _PROPHY_GENERATED_FULL_{guard_name}_HPP
+#define _PROPHY_GENERATED_FULL_{guard_name}_HPP
 
 #include <stdint.h>
 #include <numeric>
@@ -165,7 +165,7 @@ HPP_HEADER_TEMPLATE = """\
 #include <prophy/detail/mpl.hpp>
 
 {content}
-#endif  /* _PROPHY_GENERATED_FULL_{base_name}_HPP */
+#endif  /* _PROPHY_GENERATED_FULL_{guard_name}_HPP */
 """
 
 
